@@ -16,7 +16,7 @@ def checkStream (br nd toks hex : String) : Except String (List Tree) :=
 def exec (a : List String) : String :=
   match a with
   | [op, _prog, _feat, br1, n1, t1, h1, br2, n2, t2, h2, js] =>
-    if op != "run" && op != "nav" then "BAD-OP" else
+    if op != "run" && op != "nav" && op != "esc" then "BAD-OP" else
     match checkStream br1 n1 t1 h1, checkStream br2 n2 t2 h2 with
     | .error e, _ => e
     | _, .error e => e
